@@ -146,6 +146,32 @@ func firstDiff(a, b []string) int {
 	return -1
 }
 
+func classOf(msg string, ops []string, fd int) string {
+	strip := func(s string) string {
+		var b strings.Builder
+		for _, r := range s {
+			if r < '0' || r > '9' {
+				b.WriteRune(r)
+			}
+		}
+		t := b.String()
+		if len(t) > 70 {
+			t = t[:70]
+		}
+		return t
+	}
+	if msg != "" {
+		return strip(msg)
+	}
+	if fd >= 0 && fd < len(ops) {
+		f := strings.Fields(ops[fd])
+		if len(f) > 0 {
+			return f[0]
+		}
+	}
+	return "?"
+}
+
 func outClass(s string) string {
 	// coarse class of an output line for the histogram
 	f := strings.Fields(s)
@@ -275,6 +301,7 @@ func Check(prop string, t Target, driverPath string, seed int64, tier string, co
 	var mu sync.Mutex
 	var wg sync.WaitGroup
 	seen := map[string]bool{}
+	classCount := map[string]int{}
 	var firstErr error
 	for w := 0; w < workers; w++ {
 		wg.Add(1)
@@ -312,7 +339,11 @@ func Check(prop string, t Target, driverPath string, seed int64, tier string, co
 				if len(res.Samples) < 3 && nt && len(it.c.Ops) <= 40 {
 					res.Samples = append(res.Samples, it.c)
 				}
-				tooMany := len(res.Disagreements) >= 5
+				// keep a few disagreements per class (oracle message without numbers / first differing
+				// op), so that many instances of one finding do not crowd out a different one
+				cls := kind + ":" + classOf(msg, it.c.Ops, fd)
+				classCount[cls]++
+				tooMany := classCount[cls] > 3 || len(res.Disagreements) >= 40
 				mu.Unlock()
 				if bad && !tooMany {
 					ops := shrink(t, d, it.c.Ops, kind, 60*time.Second)
